@@ -9,20 +9,23 @@ for d in sorted(os.listdir(os.path.join(ROOT, "seeded"))):
     m = json.load(open(os.path.join(p, "meta.json")))
     r = json.load(open(os.path.join(p, "result.json"))) if os.path.exists(os.path.join(p, "result.json")) else {}
     cells = []
+    own = r.get("quick", {}).get(m["property"])
+    owner_state = "notrun" if own is None else ("caught" if own["caught"] else "missed")
     for tier in ("quick", "thorough"):
         for pid, x in sorted(r.get(tier, {}).items()):
             cells.append("%s/%s: %s" % (pid, tier, ("caught — " + x["by"]) if x["caught"] else ("MISSED (rc %s)" % x["rc"])))
     if m.get("neutralised_by_fix"):
+        owner_state = "neutralised"
         cells = ["no longer a violation on the repaired tree (" + m["neutralised_by_fix"][:160] + "…); was caught before the fix" ]
     rows.append((d, m["property"], ", ".join(m.get("files", [])), m.get("summary", "").replace("\n", " ").replace("|", "/")[:260],
-                 m.get("needs", "").replace("\n", " ").replace("|", "/")[:260], "; ".join(cells) or "not run yet"))
+                 m.get("needs", "").replace("\n", " ").replace("|", "/")[:260], "; ".join(cells) or "not run yet", owner_state))
 out = ["# Seeded breaking changes (written by independent sub-agents that saw only the property text)", "",
        "Each change compiles, keeps the existing suite at 873 passed, and fails its own demo (confirmed by rv/seedconfirm.py in a scratch worktree; see meta.json `what_was_run`).",
        "Outcome of `rv/seedtest.py` (check run against a private copy of /repo with the patch applied):", "",
        "| id | property | files | change | needs | outcome |", "|---|---|---|---|---|---|"]
 for r in rows:
-    out.append("| %s | %s | %s | %s | %s | %s |" % r)
-n = len(rows); neut = sum("no longer a violation" in r[5] for r in rows); c = sum("caught —" in r[5] and "MISSED" not in r[5] for r in rows); miss = sum("MISSED" in r[5] for r in rows)
+    out.append("| %s | %s | %s | %s | %s | %s |" % r[:6])
+n = len(rows); neut = sum(r[6] == "neutralised" for r in rows); c = sum(r[6] == "caught" for r in rows); miss = sum(r[6] == "missed" for r in rows)
 out += ["", "%d changes; caught by the owning property's quick check: %d; missed: %d; neutralised by a later fix commit: %d; not run yet: %d" % (n, c, miss, neut, n - c - miss - neut)]
 open(os.path.join(ROOT, "seeded", "REPORT.md"), "w").write("\n".join(out) + "\n")
 print(out[-1])
